@@ -69,7 +69,8 @@ LANGS = {
     # loses every later comment after `decl NEWLINE /* c */ code` (known finding C03/kotlin-inline,
     # reproduced by a dedicated witness job instead of polluting the random workload).
     "kotlin": dict(suffixes=["kt", "kts"],
-                   forms=[C_LINE, _c_block(trailing_code=False), _c_block("block-star", "/*", cont=" * ", trailing_code=False)],
+                   forms=[C_LINE, _c_block(trailing_code=False), _c_block("block-star", "/*", cont=" * ", trailing_code=False),
+                          _c_block("nested-block-star", "/* /* inner */", cont=" * ", trailing_code=False)],      # block comments nest in Kotlin
                    code=["val x = 1", "val y = x + 2"],
                    decoys=['val s%d = "<block name=decoy>"', 'val t%d = "</block>"', 'val m%d = """\n// <block name="ml">\n"""']),
     "makefile": dict(suffixes=["Makefile", "makefile", "mk"], forms=[Form("hash", "line", "#", col0=True)],
@@ -92,14 +93,16 @@ LANGS = {
                  forms=[C_LINE, Form("doc-line", "line", "///", eats_newline=True), C_BLOCK, C_BLOCK_STAR, C_DOC_BLOCK,
                         Form("inner-doc-line", "line", "//!", eats_newline=True), _c_block("inner-doc-block", "/*!", cont=" * "),
                         # block comments nest in Rust: the tag sits after an inner, already closed comment
-                        _c_block("nested-block", "/* /* inner */")],
+                        _c_block("nested-block", "/* /* inner */"),
+                        # ... and the same with star-decorated continuation lines
+                        _c_block("nested-block-star", "/* /* inner */", cont=" * ")],
                  code=["let x = 1;", "let y = x + 2;"],
                  decoys=['let s%d = "<block name=decoy>";', 'let t%d = r#"</block>"#;', 'let m%d = r#"\n// <block name="ml">\n/* </block> */\n"#;']),
     "sql": dict(suffixes=["sql"], forms=[Form("dash", "line", "--"), C_BLOCK, C_BLOCK_STAR, C_DOC_BLOCK],
                 code=["SELECT 1;", "SELECT a FROM t;"],
                 decoys=["SELECT '<block name=decoy%d>';", "SELECT '</block>' AS c%d;", 'SELECT \'\n-- <block name="ml%d">\n\';']),
     "swift": dict(suffixes=["swift"], forms=[C_LINE, C_BLOCK, C_BLOCK_STAR, Form("doc-line", "line", "///"), C_DOC_BLOCK,
-                                             _c_block("nested-block", "/* /* inner */")],
+                                             _c_block("nested-block", "/* /* inner */"), _c_block("nested-block-star", "/* /* inner */", cont=" * ")],
                   code=["let x = 1", "var y = x + 2"],
                   decoys=['let s%d = "<block name=decoy>"', 'let t%d = "</block>"']),
     "toml": dict(suffixes=["toml"], forms=[HASH], code=["x = 1", 'y = "two"'],
